@@ -136,8 +136,40 @@ func searchBase(res interface{}, err error, panicked bool) string {
 	return "ok " + jmespath.VerifCanon(res)
 }
 
-func doSearch(expr string, docText string, unordered bool) outcome {
-	var o outcome
+// History of the process: the first few successful one-shot searches are remembered and asked again, unchanged, after
+// more than a thousand other expressions have gone through the same process (and every 150 calls after that): whatever
+// the library keeps between calls — a cache of compiled expressions with an eviction rule, a memo keyed by something
+// weaker than the expression — must not change their answers.
+var (
+	histCalls int
+	histKept  [][3]string // expression, document, answer
+)
+
+func historyCheck(o *outcome) {
+	histCalls++
+	if histCalls < 1100 || histCalls%150 != 0 || len(histKept) == 0 {
+		return
+	}
+	h := histKept[(histCalls/150)%len(histKept)]
+	doc, err := parseCanon(h[1])
+	if err != nil {
+		return
+	}
+	var res interface{}
+	var serr error
+	p, _ := safely(func() { res, serr = jmespath.Search(h[0], doc) })
+	if got := searchBase(res, serr, p); got != h[2] {
+		o.flags = append(o.flags, "history:"+hexField(h[0])+":first="+truncate(h[2], 80)+":now="+truncate(got, 80))
+	}
+}
+
+func doSearch(expr string, docText string, unordered bool) (o outcome) {
+	defer func() {
+		if len(histKept) < 6 && strings.HasPrefix(o.base, "ok ") && !unordered && !mayObserveOrder(expr) && len(docText) < 4000 {
+			histKept = append(histKept, [3]string{expr, docText, o.base})
+		}
+		historyCheck(&o)
+	}()
 	doc, perr := parseCanon(docText)
 	if perr != nil {
 		o.base = "bad-request"
